@@ -89,6 +89,58 @@ func RPCTag(md map[string][]string) int {
 	return n
 }
 
+// MethodClass classifies a method name against the scripted service:
+// "ok", "unknown" (well-formed, not registered), "malformed" (no service/method
+// separator) or "empty".
+func MethodClass(name string) string {
+	if name == "" {
+		return "empty"
+	}
+	if name[0] == '/' {
+		name = name[1:]
+	}
+	i := -1
+	for k := 0; k < len(name); k++ {
+		if name[k] == '/' {
+			i = k
+			break
+		}
+	}
+	if i < 0 {
+		return "malformed"
+	}
+	if name[:i] != "verif.Svc" {
+		return "unknown"
+	}
+	switch name[i+1:] {
+	case "Unary", "CStream", "SStream", "Bidi":
+		return "ok"
+	}
+	return "unknown"
+}
+
+// MethodShape is the call shape of a method of the scripted service ("" if unknown).
+func MethodShape(name string) string {
+	if MethodClass(name) != "ok" {
+		return ""
+	}
+	for i := len(name) - 1; i >= 0; i-- {
+		if name[i] == '/' {
+			switch name[i+1:] {
+			case "Unary":
+				return "unary"
+			case "CStream":
+				return "cstream"
+			case "SStream":
+				return "sstream"
+			case "Bidi":
+				return "bidi"
+			}
+		}
+	}
+	return ""
+}
+
 // Desc describes a frame for the event log.
 func Desc(m proto.Message) tr.E {
 	switch f := m.(type) {
@@ -99,6 +151,8 @@ func Desc(m proto.Message) tr.E {
 			md := pbMD(fr.NewStream.RequestHeaders)
 			e["kind"] = "new"
 			e["method"] = Val(fr.NewStream.MethodName)
+			e["mclass"] = MethodClass(fr.NewStream.MethodName)
+			e["mshape"] = MethodShape(fr.NewStream.MethodName)
 			e["rev"] = int(fr.NewStream.ProtocolRevision)
 			e["win"] = int64(fr.NewStream.InitialWindowSize)
 			e["md"] = md
